@@ -367,7 +367,8 @@ Proof.
     match goal with |- (if ?b then _ else _) = _ => destruct b end; [apply cleanstring_nobs; exact Hn|reflexivity].
   - destruct (eqs name (s "ATKEYWORD")); [|injection H as <- <- <-; reflexivity].
     destruct (assoc_str (normalize_u found) atkeywords); [injection H as <- <- <-; reflexivity|].
-    match type of H with (if ?b then _ else _) = _ => destruct b end; injection H as <- <- <-; reflexivity.
+    match type of H with (if ?b then _ else _) = _ => destruct b end; injection H as <- <- <-;
+      [reflexivity|apply unicodesub_nobs; exact Hn].
 Qed.
 
 Lemma loop_raw_is_val fuel : forall dc fs prev rest l c toks,
